@@ -79,6 +79,9 @@ func (e *Engine) sortByName(tc *typeCtx, name string, pkg *ssa.Package) *Sort {
 	case "err", "error":
 		return sErr
 	}
+	if r, ok := e.records[name]; ok {
+		return r
+	}
 	if pkg != nil {
 		if obj := pkg.Pkg.Scope().Lookup(name); obj != nil {
 			if tn, ok := obj.(*types.TypeName); ok {
@@ -427,6 +430,13 @@ func (e *SpecEnv) field(x *SX) Term {
 		}
 	}
 	switch b.T.K {
+	case KRecord:
+		for i, f := range b.T.Fields {
+			if f == x.Tok {
+				return Term{"(R_" + b.T.Name + "." + f + " " + b.S + ")", b.T.Elems[i]}
+			}
+		}
+		e.bad("record %s has no field %s", b.T.Name, x.Tok)
 	case KRef:
 		el := u.pointee(b)
 		idx, ok := e.structField(b, x.Tok)
@@ -701,6 +711,10 @@ func (e *SpecEnv) call(x *SX) Term {
 	case "seq":
 		// seq(s) : the elements of a byte slice / string as a mathematical sequence value
 		return e.seqOf(args[0])
+	case "arr":
+		// arr(s) : the elements of a byte slice / string as an array indexed from 0 (sort seq)
+		t := e.seqOf(args[0])
+		return Term{"(str-arr " + t.S + ")", seqSort}
 	case "int":
 		a := e.eval(args[0])
 		if isLit(a) {
@@ -723,12 +737,59 @@ func (e *SpecEnv) call(x *SX) Term {
 		case KReal:
 			return a
 		}
+	case "cb_len", "cb_byte", "cb_i32", "cb_fn":
+		i := e.evalInt(args[0])
+		if name == "cb_fn" {
+			return sel(u.heap(e.st, "G.cb_fn", "(Array Int Int)"), i, &Sort{K: KFunc})
+		}
+		if args[1].Op != "num" {
+			e.bad("%s: the argument position must be a literal", name)
+		}
+		k := args[1].Tok
+		switch name {
+		case "cb_len":
+			return sel(u.heap(e.st, "G.cb_a"+k+"_len", "(Array Int Int)"), i, sInt)
+		case "cb_byte":
+			j := e.evalInt(args[2])
+			arr := u.heap(e.st, "G.cb_a"+k+"_arr", "(Array Int (Array Int (_ BitVec 8)))")
+			off := sel(u.heap(e.st, "G.cb_a"+k+"_off", "(Array Int Int)"), i, sInt)
+			return sel(Term{"(select " + arr.S + " " + i.S + ")", nil}, add(off, j), bvSort(8, false))
+		case "cb_i32":
+			s32 := bvSort(32, true)
+			return sel(u.heap(e.st, "G.cb_a"+k+"_"+sanitize(u.tc.smt(s32)), "(Array Int (_ BitVec 32))"), i, s32)
+		}
 	case "typeof":
 		a := e.eval(args[0])
 		if a.T.K != KIface {
 			e.bad("typeof needs an interface value")
 		}
 		return Term{"(i-tag " + a.S + ")", sInt}
+	}
+	if rs, ok := u.eng.records[name]; ok {
+		if len(args) != len(rs.Fields) {
+			e.bad("record %s has %d fields", name, len(rs.Fields))
+		}
+		var ts []Term
+		for i, a := range args {
+			t := e.eval(a)
+			if isLit(t) {
+				t = e.coerce(t, rs.Elems[i])
+			} else if rs.Elems[i].K == KInt && t.T.K == KBV {
+				t = u.toInt(t)
+			}
+			ts = append(ts, t)
+		}
+		return app("mk-R_"+name, rs, ts...)
+	}
+	if mc, ok := u.eng.macros[name]; ok {
+		if len(args) != len(mc.Params) {
+			e.bad("macro %s expects %d arguments", name, len(mc.Params))
+		}
+		sub := map[string]*SX{}
+		for i, p := range mc.Params {
+			sub[p] = args[i]
+		}
+		return e.eval(substSX(mc.Body, sub))
 	}
 	// spec function?
 	if sf, ok := u.eng.specFuncs[name]; ok {
@@ -746,6 +807,8 @@ func (e *SpecEnv) call(x *SX) Term {
 				t = u.toInt(t)
 			} else if ps.K == KBV && t.T.K == KBV && ps.W != t.T.W {
 				e.bad("argument %d of %s: width %d, want %d", i, name, t.T.W, ps.W)
+			} else if ps.K == KRecord && t.T.K == KRecord && ps.Name == t.T.Name {
+				// ok
 			} else if ps.K != t.T.K && !(intLike(ps.K) && intLike(t.T.K)) {
 				e.bad("argument %d of %s has the wrong sort (%d, want %d)", i, name, t.T.K, ps.K)
 			}
@@ -883,4 +946,22 @@ func mentions(x *SX, names []string) bool {
 		}
 	}
 	return false
+}
+
+func substSX(x *SX, sub map[string]*SX) *SX {
+	if x == nil {
+		return nil
+	}
+	if x.Op == "ident" {
+		if r, ok := sub[x.Tok]; ok {
+			return r
+		}
+		return x
+	}
+	n := *x
+	n.Args = make([]*SX, len(x.Args))
+	for i, a := range x.Args {
+		n.Args[i] = substSX(a, sub)
+	}
+	return &n
 }
